@@ -395,6 +395,8 @@ func (n *Client) postWrapper(ctx context.Context, json []byte, dataType string) 
 		// Metrics API requires gzip or identity
 		// https://docs.newrelic.com/docs/data-ingest-apis/get-data-new-relic/metric-api/report-metrics-metric-api#headers-query-parameters
 		// Use GZIP as standard across both
+		// payload is per attempt: json is captured by this closure and must stay uncompressed for retries
+		payload := json
 		if (n.flushType == flushTypeInsights || n.flushType == flushTypeMetrics) && n.apiKey != "" {
 			headers["X-Insert-Key"] = n.apiKey
 			headers["Content-Encoding"] = "gzip"
@@ -411,7 +413,7 @@ func (n *Client) postWrapper(ctx context.Context, json []byte, dataType string) 
 			if err := zw.Close(); err != nil {
 				return err
 			}
-			json = buf.Bytes()
+			payload = buf.Bytes()
 		}
 
 		address := n.address
@@ -419,7 +421,7 @@ func (n *Client) postWrapper(ctx context.Context, json []byte, dataType string) 
 			address = n.addressMetrics
 		}
 
-		req, err := http.NewRequest("POST", address, bytes.NewBuffer(json))
+		req, err := http.NewRequest("POST", address, bytes.NewBuffer(payload))
 		if err != nil {
 			return fmt.Errorf("unable to create http.Request: %v", err)
 		}
